@@ -142,7 +142,8 @@ where
     Traits: ?Sized + Trait, 
     M: MemBuilder,
     IterItem: IteratorItem<'a, AnyVecPtr<Traits, M>>,
-    AnyVec<Traits, M>: Send
+    // Iterator is Send, if its items are. (ElementRef - shared reference, ElementMut, Element - exclusive.)
+    IterItem::Item: Send
 {}
 #[allow(renamed_and_removed_lints, suspicious_auto_trait_impls)]
 unsafe impl<'a, T, M, IterItem> Send
